@@ -6,6 +6,7 @@ order), agreement of the operator tables in lexer / parser / nodes / compiler / 
 (round trip symbol -> token -> node class -> emitted operator -> fold function), the
 attribute-vs-item lookup order of Environment.getattr/getitem and their sandbox overrides,
 and the result name of compile_expression.  Also: (skeletons) an emitted call passes every operand of the call node on every path.  
+Also: a folded attribute / subscript lookup uses the same environment.getattr / getitem the emitted code uses.  
 Not decided: values of expressions.
 """
 
